@@ -214,9 +214,9 @@ def audit_axioms(module, theorems, log, extra_imports=()):
     res = {t: None for t in theorems}
     # output: 'thm' depends on axioms: [a, b]   |  'thm' does not depend on any axioms
     text = p.stdout
-    for m in re.finditer(r"'([^']+)' depends on axioms: \[([^\]]*)\]", text, re.S):
+    for m in re.finditer(r"'(\S+)' depends on axioms: \[([^\]]*)\]", text, re.S):
         res[m.group(1)] = [a.strip() for a in m.group(2).replace("\n", " ").split(",") if a.strip()]
-    for m in re.finditer(r"'([^']+)' does not depend on any axioms", text):
+    for m in re.finditer(r"'(\S+)' does not depend on any axioms", text):
         res[m.group(1)] = []
     if p.returncode != 0:
         log("axiom audit output:\n" + text[-3000:])
@@ -234,7 +234,7 @@ class Pair:
     def _run(self, exe, lines, timeout=600, env=None):
         data = "".join(l + "\n" for l in lines)
         try:
-            p = subprocess.run(["/bin/sh", "-c", "ulimit -v 25165824; exec \"$0\"", exe], input=data, stdout=subprocess.PIPE,
+            p = subprocess.run(["/bin/sh", "-c", "ulimit -v 8388608; exec \"$0\"", exe], input=data, stdout=subprocess.PIPE,
                                stderr=subprocess.PIPE, text=True, timeout=timeout, env=env)
         except subprocess.TimeoutExpired as e:
             out = (e.stdout or b"")
@@ -257,8 +257,13 @@ class Pair:
             k = len(out)
             self.log("pqh died after %d/%d lines (rc=%s): %s" % (k, len(lines), rc, err[-400:]))
             out.append("crash")
-            rest = self.impl(lines[k + 1:]) if k + 1 < len(lines) else []
-            out += rest
+            self.crashes = getattr(self, "crashes", 0) + 1
+            if self.crashes > 6:
+                # a (mutated) implementation that keeps dying: do not spend the run restarting it
+                out += ["crash"] * (len(lines) - k - 1)
+            else:
+                rest = self.impl(lines[k + 1:]) if k + 1 < len(lines) else []
+                out += rest
         return out
 
     def model(self, lines, **kw):
